@@ -228,6 +228,11 @@ func (r *Relay) SendStream(ctx context.Context, _ ...grpc.CallOption) (hashmailr
 	if a := r.fault("sendstream", "", 0, 0); a.Fail != nil {
 		return nil, a.Fail
 	}
+	// as grpc.ClientConn.NewStream: a context that is already done fails
+	// the call at once
+	if err := ctx.Err(); err != nil {
+		return nil, status.FromContextError(err).Err()
+	}
 	s := &sendStream{streamStub: streamStub{ctx: ctx}, r: r}
 	return s, nil
 }
@@ -363,6 +368,9 @@ func (r *Relay) RecvStream(ctx context.Context, in *hashmailrpc.CipherBoxDesc, _
 	id := hex.EncodeToString(in.GetStreamId())
 	if a := r.fault("recvstream", id, 0, 0); a.Fail != nil {
 		return nil, a.Fail
+	}
+	if err := ctx.Err(); err != nil {
+		return nil, status.FromContextError(err).Err()
 	}
 	return &recvStream{streamStub: streamStub{ctx: ctx}, r: r, id: id, raw: append([]byte{}, in.GetStreamId()...)}, nil
 }
